@@ -167,6 +167,30 @@ def check(chk: Check) -> None:
             chk.require(verdict == 'converted', R4, key, '%s:%d' % (fi.module.rel, line),
                         det if verdict == 'converted' else 'an undefined name raises KeyError here (%s): the failure escapes as a non-ParserError' % det)
 
+    # the text of a tree is built by recursion over the tree (the dataclass __repr__ of a node calls the __repr__ of its children):
+    # an eval method that renders itself or a child - for a message, for a log line whose arguments are evaluated whether or not
+    # the line is emitted - raises RecursionError on programs that are merely long (a sum of 500 terms nests 500 deep)
+    for cls in om.op_classes(F):
+        if not om.own_eval(F, cls) and cls != om.ROOT:
+            continue
+        q = cls + '.eval'
+        if q not in F.functions:
+            continue
+        selft = ('param', om.self_param(F, q))
+        kinds = om.op_field_kinds(F, cls)
+        hits = set()
+        for p in om.eval_paths(F, cls):
+            for e in p.events:
+                if e.kind != 'call':
+                    continue
+                f = freeze(e.func)
+                if isinstance(f, tuple) and f[:2] == ('ref', 'builtin') and f[2] in ('repr', 'str', 'ascii', 'format') and e.args:
+                    a0 = freeze(e.args[0])
+                    if a0 == selft or (isinstance(a0, tuple) and a0[:2] == ('attr', selft) and kinds.get(a0[2]) in ('op', 'oplist', 'pairlist')):
+                        hits.add('`%s` (line %d)' % (e.text(), e.line))
+        if hits:
+            chk.bad(R7, '%s renders the tree' % q, F.func(q).where, '%s builds the text of a syntax tree, which recurses once per nesting level: '
+                    'RecursionError - not a ParserError - on deep programs' % ', '.join(sorted(hits)[:2]))
     # --------------------------------------------------------------------- R5
     for key, ok, where, det in lookup_sites(chk):
         chk.require(ok, R5, key, where, det)
